@@ -41,6 +41,12 @@ def build(spec):
                 change_description = "set attr"
                 def __init__(self, *a, **k): super().__init__(*a, name_attributes_map=amap, **k)
             cms.append(VfCodemod(metadata=md(s["name"]), transformer=XMLTransformerPipeline(T), default_extensions=[".xml"]))
+        elif s["kind"] == "sast-xml-attr":
+            amap2 = s["map"]; lom = bool(s.get("line_only"))
+            class T3(ElementAttributeXMLTransformer):
+                change_description = "set attr"
+                def __init__(self, *a, **k): super().__init__(*a, name_attributes_map=amap2, line_only_matching=lom, **k)
+            cms.append(VfSast(metadata=md(s["name"], ToolMetadata(name="VF", rules=[ToolRule(id="vf-rule", name="vf-rule")])), transformer=XMLTransformerPipeline(T3), detector=Det(s["findings"]), default_extensions=[".xml"], requested_rules=["vf-rule"]))
         elif s["kind"] == "xml-new":
             els = [NewElement(name=e["name"], parent_name=e["parent"], content=e.get("content", ""), attributes=e.get("attributes", {})) for e in s["elements"]]
             class T2(NewElementXMLTransformer):
